@@ -2,6 +2,7 @@ import PdtVerif.Lemmas.Beam
 import PdtVerif.Lemmas.BeamRun
 import PdtVerif.Lemmas.BeamComplete
 import PdtVerif.Lemmas.BeamStable
+import PdtVerif.Lemmas.BeamLength
 /-!
 # C04 — beam search returns distinct, correctly scored, best-first paths per element
 
@@ -105,6 +106,23 @@ theorem C04_state_follows (hsel : SelOK sel) (hlm : LMOK cfg.V lm spec Rep) (hV 
   refine ⟨t, ?_⟩
   intro e he hnd k s st hk hst hf hne
   exact ((hinv.elem e he).2.2.2 hnd k s st hk hst hf).2 hne
+
+/-- **C04_length**: where a returned path may stop. A returned slot with a finite score either ends in
+eos or is exactly as long as the step limit `maxIters` - every slot when eos is unset or all paths are run
+to completion (`finish_all_paths`), the best slot (index 0) otherwise (its element counts as finished only
+when that path has ended). For every selection meeting the `topk` contract (any tie-breaking): the loop
+stops only because the step limit is used up or because every element is finished (`loop_inv_exit`). This is
+the predicate `C04.length` the harness evaluates on the implementation's output in every case, tie or not
+(round f: a change that caps the number of steps, or lets the exit test look at part of the batch only,
+shows here even where the model comparison is suspended by a tie). -/
+theorem C04_length (hsel : SelOK sel) (hlm : LMOK cfg.V lm spec Rep) (hV : 0 < cfg.V)
+    (hw : 0 < cfg.width) (dflt : σ) {inits : List σ} (hinit : ∀ s ∈ inits, Rep [] s)
+    {maxIters : Nat} {out : List (List Slot)}
+    (h : search sel cfg lm dflt inits maxIters = .ok out) :
+    ∀ beam ∈ out, ∀ (k : Nat) (s : Slot), beam[k]? = some s → s.score ≠ none →
+      (cfg.eos = none ∨ cfg.finishAll = true ∨ k = 0) →
+      lastIsEos cfg.eos s = true ∨ s.len = maxIters :=
+  search_length hsel hlm hV hw dflt hinit h
 
 /-- `BeamSearch.__init__` normalises an accepted eos into the vocabulary. -/
 theorem C04_normEos_range {V : Nat} {eos : Option Int} {e : Int}
@@ -417,6 +435,8 @@ example := C04_score (cfg := hCfg) C04_selIns_ok hLM_ok (by decide) (by decide) 
 example := C04_distinct (cfg := hCfg) C04_selIns_ok hLM_ok (by decide) (by decide) [] (inits := [[]])
   (by intro s hs; simp at hs; subst hs; rfl) hSearch_ok
 example := C04_eos (cfg := hCfg) C04_selIns_ok hLM_ok (by decide) (by decide) [] (inits := [[]])
+  (by intro s hs; simp at hs; subst hs; rfl) hSearch_ok
+example := C04_length (cfg := hCfg) C04_selIns_ok hLM_ok (by decide) (by decide) [] (inits := [[]])
   (by intro s hs; simp at hs; subst hs; rfl) hSearch_ok
 example := fun beam hb => C04_neginf_last ((C04_sorted (cfg := hCfg) C04_selIns_ok hLM_ok (by decide) (by decide) []
   (inits := [[]]) (by intro s hs; simp at hs; subst hs; rfl) hSearch_ok beam hb).2)
